@@ -768,9 +768,9 @@ def subchecks(tier):
         return [Sub("scenarios", _scenarios(300, 3), shards=10, weight=3),
                 Sub("subscriptions", _subscriptions(250, 3), shards=3, weight=1),
                 Sub("backpressure", _backpressure(150), shards=3, weight=1)]
-    return [Sub("scenarios", _scenarios(9000, 8), shards=16, weight=3),
-            Sub("subscriptions", _subscriptions(6000, 6), shards=16, weight=1),
-            Sub("backpressure", _backpressure(3000), shards=16, weight=1)]
+    return [Sub("scenarios", _scenarios(18000, 8), shards=16, weight=3),
+            Sub("subscriptions", _subscriptions(12000, 6), shards=16, weight=1),
+            Sub("backpressure", _backpressure(8000), shards=16, weight=1)]
 
 
 def replay(case):
